@@ -74,6 +74,7 @@ def check(run, P):
     run.rule("C03.utypes", "user types are collected from the *kinds* of every table "
              "(global and per phase)", minimum=2)
     _zip(run, P)
+    _splits(run, P)
     _reduce(run, P)
     _utypes(run, P)
     run.rule("C03.release", "release / allocation discipline that keeps the generated "
@@ -363,6 +364,28 @@ def _zip(run, P):
                                "every loop index with another axis's extent")
     if n == 0:
         raise AnalysisError("C03.zip: no zip() found")
+
+
+def _splits(run, P):
+    """<separator literal>.split(<data>) has receiver and argument swapped."""
+    n = 0
+    for modname in ("dagrt.codegen.fortran", "dagrt.codegen.utils", "dagrt.codegen.python"):
+        m = P.module(modname)
+        for f in m.functions.values():
+            for x in ast.walk(f.node):
+                if isinstance(x, ast.Call) and isinstance(x.func, ast.Attribute) \
+                        and x.func.attr in ("split", "rsplit", "partition", "rpartition") and x.args:
+                    n += 1
+                    recv, arg = x.func.value, x.args[0]
+                    swapped = isinstance(recv, ast.Constant) and isinstance(recv.value, str) \
+                        and len(recv.value) <= 2 and not isinstance(arg, ast.Constant)
+                    run.ob("C03.zip", f, x, not swapped,
+                           construct=f"{norm(x, 50)}: the data is split by the separator",
+                           why="'\\':\\'.split(dim)' always yields one part: an explicit lower "
+                               "bound '0:2' is taken for an extent and the generated "
+                               "declaration does not compile")
+    if n == 0:
+        raise AnalysisError("C03: no split() found in the generators")
 
 
 def _reduce(run, P):
